@@ -89,6 +89,9 @@ func lengthPrefixOf(p *an.Prog, v ssa.Value) ssa.Value {
 }
 
 func c30(c *an.Check) {
+	mountedLinkForwarding(c)
+	recvMsgFreshness(c)
+	sendMsgAlwaysFrames(c)
 	p := c.P
 	ph := p.Func(solPkg, "", "ComputeProtocolHash")
 	if ph == nil {
@@ -374,6 +377,12 @@ func c31(c *an.Check) {
 }
 
 func c32(c *an.Check) {
+	// the session id concatenates two peer ids without a separator: it is injective only because accepted ids are
+	// self-delimiting (exact-length multihash decode)
+	peerIDIdentityClause = false
+	peerIDDecodeObligations(c)
+	peerIDIdentityClause = true
+	recvMsgFreshness(c)
 	p := c.P
 	sid := p.Func(solPkg, "", "ComputeSessionID")
 	fm := p.Func(solPkg, "", "FindMatchingHashes")
@@ -621,4 +630,32 @@ func relName(r an.Rel) string {
 		return "> 0"
 	}
 	return "?"
+}
+
+
+// mountedLinkForwarding: the mounted-link wrapper (the only link.MountedLink implementation; constraints are evaluated
+// against it) forwards every accessor to the link method of the same meaning.
+func mountedLinkForwarding(c *an.Check) {
+	p := c.P
+	want := map[string]string{"GetLinkUUID": "GetUUID", "GetTransportUUID": "GetTransportUUID", "GetRemoteTransportUUID": "GetRemoteTransportUUID", "GetLocalPeer": "GetLocalPeer", "GetRemotePeer": "GetRemotePeer"}
+	n, bad := 0, ""
+	for m, inner := range want {
+		fn := p.Func("transport/controller", "mountedLink", m)
+		if fn == nil {
+			bad = "unresolved anchor: mountedLink." + m
+			continue
+		}
+		n++
+		for _, b := range fn.Blocks {
+			ret, ok := b.Instrs[len(b.Instrs)-1].(*ssa.Return)
+			if !ok {
+				continue
+			}
+			call, isCall := ret.Results[0].(*ssa.Call)
+			if !isCall || !call.Call.IsInvoke() || call.Call.Method.Name() != inner {
+				bad = fmt.Sprintf("mountedLink.%s does not return link.%s(): constraints on the local transport / peer are evaluated against the wrong end of the link", m, inner)
+			}
+		}
+	}
+	c.Require(bad == "" && n == len(want), "PROVENANCE", "mounted link accessors forward to the link accessor of the same meaning", nil, "", n, "GetX() = link.GetX()", bad)
 }
